@@ -329,6 +329,7 @@ pub fn gen_pb(rng: &mut Rng, thorough: bool, out: &mut Vec<String>) {
             }
             let cur = roots.len() as u64 - 1;
             if cur >= 1 {
+                out.push(format!("o.pb.blob {cur}"));
                 out.push(format!("o.pb.rt.audit 0 {cur}"));
                 out.push(format!("o.pb.rt.audit {} {cur}", cur - 1));
             }
